@@ -14,19 +14,28 @@ HARNESS_BIN = "persist"
 HARNESS_FEATURES = ""
 SINGLE = ["f1", "f14"]
 PARTIAL = [
-    "restart_transparent_partial / restart_between_epochs: proved for the full engine model for a restart placed "
-    "immediately before an input session on a quiescent state (computing table and backward-projection locks empty), "
-    "and unconditionally for the core model (input + normal queries). A restart in the middle of an epoch resets the "
-    "per-epoch `dirtied_queries` set, which a firewall recompute of the same epoch reads; that this cannot change "
-    "values or executor invocations is NOT proved for the full model (it is false as soon as known finding F1 has "
-    "already produced a stale verified node, see `dirtied_is_read_witness`); it is covered by the correspondence only.",
-    "quiescence (computing table / locks empty between operations) of the full model is a hypothesis, validated by "
-    "the driver on every generated history, not a theorem.",
-    "store_is_image: the batch of a publication is defined as the difference of the persistent images before and "
-    "after it; which fields each Rust function writes is tied to the code by the correspondence (values, executor "
-    "invocations, and byte-equality of the final store with and without restarts), not by a theorem.",
-    "sequential histories only: sessions are opened only when no query is running (DESIGN F8: with a session opened "
-    "while readers are still publishing, store order != memory order; handled with F5 by the C04 check).",
+    "restart_transparent / restart_no_exec / restart_sound are proved in full for the CORE model (programs of input and "
+    "normal queries with ordered reads and dynamic dependency sets — the fragment of C01's theorem): any number of "
+    "restarts at arbitrary positions leaves values, set_input results and executor invocations of every operation "
+    "unchanged, and the outputs are the from-scratch ones.  For the FULL model (firewall / projection / external nodes, "
+    "backward projection, unordered groups) transparency is NOT a theorem: it is false as the code is "
+    "(restart_mid_epoch_witness, finding F20: a mid-epoch restart loses the per-epoch dirtied_queries set, observable "
+    "once known finding F1 has verified a stale node; with F1 repaired in the model the witness history is transparent) "
+    "and is not proved for the repaired configuration; there it is covered by the correspondence only.",
+    "store_is_image / reload_is_restart take as hypothesis that every change of the stored part has been published "
+    "(syncedB) and restart_loses_only_dirtied that nothing is in flight (Quiescent); for the full model both are "
+    "validated by the Lean driver after every operation of every generated history (` !unsynced` / ` !busy` flags in "
+    "the compared stream), not proved as invariants of the mutual recursion.",
+    "the batch of a publication is the difference of the persistent images before and after it, per stored map; which "
+    "Rust call writes which cell is tied to the code by the correspondence (values, executor invocations, number of "
+    "logical batches at every shutdown, byte-equality of the final store with and without restarts, and — C08 — one "
+    "reopened engine per prefix of the commit log), not by a theorem.",
+    "sequential histories only: sessions are opened only when no query is running.  With a session opened while a "
+    "reader is still publishing the property is violated by the code as it is (finding F8, reproduced: mode f8 of the "
+    "harness; fixed by the F5 lock-first reordering handled by the C04 check).",
+    "restarts right after concurrent or cancelled work are not generated (every history is driven by one task); the "
+    "thorough tier repeats a sample on the real RocksDB backend only (not Fjall).",
+    "vacuum thread of the interner, spawn_blocking drops at shutdown, RocksDB/Fjall themselves are outside the model.",
 ]
 ASSUMPTIONS = [
     "fingerprints are injective on the values of a run (value = fingerprint in the models; C13)",
@@ -155,14 +164,22 @@ def analyse(sh, values_only_after_crash=False):
         order_sensitive = any(raw[i].endswith(" ~") for i in idx) or any(desc[i] != asis[i] for i in idx)
         if order_sensitive: res["order_sensitive_cases"] += 1
         dis = [i for i in idx if not cmp_line(impl[i], asis[i], i)]
+        # from-scratch oracle on values
+        vidx = [i for i in idx if ops[i].startswith(("session", "round"))]
+        bad = [i for i in vidx if ec.vals(impl[i]) != exp[i]]
+        model_ok = all(ec.vals(asis[i]) == exp[i] for i in vidx)
+        rep_ok = all(ec.vals(tog["all"][i]) == exp[i] for i in vidx)
         if dis:
             i = dis[0]
             if order_sensitive and all(impl[j] == desc[j] for j in idx): res["order_matched_desc"] += 1
             elif order_sensitive: res["order_unresolved"] += 1
+            elif rep_ok and (bad or not model_ok):
+                # a known C01 finding (F1/F14) manifests on one side only: the code runs the reads of an unordered
+                # group concurrently and walks firewall sets in hash order, the model in list / key order; excused only
+                # because the model with the known findings repaired meets the from-scratch oracle on the whole case
+                # (same rule as tools/props/engine_common.py)
+                res["excused_disagree"] = res.get("excused_disagree", 0) + 1
             else: res["disagree"].append({"case": text, "op": ops[i], "impl": impl[i], "model": asis[i]})
-        # from-scratch oracle on values
-        vidx = [i for i in idx if ops[i].startswith(("session", "round"))]
-        bad = [i for i in vidx if ec.vals(impl[i]) != exp[i]]
         if bad:
             res["impl_fail_cases"] += 1
             who = None
@@ -245,7 +262,9 @@ def collect(ctx, mode, n_quick, n_thorough, extra=()):
     n = n_quick if ctx.quick() else n_thorough
     shards = [0] if ctx.replay else list(range(ctx.jobs))
     def one(i):
-        return run_shard(binpath, mode, ctx.seed * 1000 + i, ctx.tier, None if ctx.replay else n, os.path.join(ctx.work, f"{mode}-{i}"), replay=ctx.replay, extra=extra)
+        # the corpus (minimised past failures, canonical replays of known findings) is run by shard 0 only
+        return run_shard(binpath, mode, ctx.seed * 1000 + i, ctx.tier, None if ctx.replay else n, os.path.join(ctx.work, f"{mode}-{i}"), replay=ctx.replay,
+                         extra=list(extra) + ([] if i == 0 else ["--no-corpus"]))
     results = vlib.shard_map(one, shards, ctx.jobs)
     for r in results:
         if "error" in r:
@@ -265,6 +284,7 @@ def collect(ctx, mode, n_quick, n_thorough, extra=()):
     dist["order_sensitive_cases_matching_descending_model"] = sum(a["order_matched_desc"] for a in an)
     dist["order_sensitive_cases_matching_neither_order_(oracle_only)"] = sum(a["order_unresolved"] for a in an)
     dist["cases_compared_strictly"] = sum(a["cases"] - a["order_sensitive_cases"] for a in an)
+    dist["disagreements_excused_by_known_C01_finding_on_one_side"] = sum(a.get("excused_disagree", 0) for a in an)
     dist["cases_where_impl_violates_from_scratch_oracle"] = sum(a["impl_fail_cases"] for a in an)
     for a in an:
         for who, recs in a["impl_fail_attributed"].items():
@@ -278,7 +298,7 @@ def collect(ctx, mode, n_quick, n_thorough, extra=()):
 
 
 def run(ctx):
-    res, an, reps = collect(ctx, "c07", 110, 2600)
+    res, an, reps = collect(ctx, "c07", 320, 4500)
     n_attr = 0
     seen = {}
     for r in reps:
